@@ -162,7 +162,7 @@ props["C12"] = {
     "harness": "c12",
     "harness_args": ["--only", "c12"],
     "level": "other",
-    "nontrivial": r"^(c12 (spell|read) |# (comment|space|plain|corpus|literal|broken|hbase|hspace):)",
+    "nontrivial": r"^(c12 (spell|read) |grp (gram|elide|derives|tree) |# (comment|space|plain|corpus|literal|broken|hbase|hspace):)",
     "timeout": {"quick": 1500, "thorough": 10800},
     "rule": "inputs: " + FORMATTER_STREAMS + ". Oracles for C12: the formatter returns (no panic, no hang); its output parses; SourceUnitDesugarer output of input and output is identical (the repository's own structural printer); a file that does not parse is byte-for-byte unchanged after `fmt` and the error is reported; the file written is the text rendered. String literal spelling is compared with the Lean model on random strings over an alphabet of special characters (`c12 spell`, `c12 read`).",
     "explanation": "pretty.rs is a 4,500-line combinator printer over an external layout library; it is not modelled, so totality and meaning preservation are decided by search with an exact oracle (desugared structure equal), not by a theorem. Kernel-checked: the one place where the printer invents text rather than copying tokens - string literal spelling - round-trips through the lexer's reader for every string (this is the defect repaired by fix: 9aa2731 and 69bbb8b, found by this check).",
